@@ -11,7 +11,7 @@ PROPS = {
     "C01": dict(groups=["gmtime"], families=["gmtime"], level="proof", errkind_matters=True, theorems=["TzVerif.C01." + t for t in ['fields_correct', 'accepted_iff', 'refused', 'range_ends', 'fields_unique', 'week_day', 'year_day']], exhaustive=True),
     "C02": dict(groups=["utcnew"], families=["utcnew", "utccmp"], level="proof", errkind_matters=True, theorems=["TzVerif.C02." + t for t in ['days_correct', 'new_correct', 'new_accepts_iff', 'unix_time_correct', 'leap_second', 'roundtrip_fields', 'roundtrip_time', 'monotone']]),
     "C03": dict(groups=["zonelookup"], families=["zone", "lookup", "dtfrom"], level="proof", errkind_matters=True, theorems=["TzVerif.C03." + t for t in ['binary_search_correct', 'table_lookup', 'no_transitions', 'conversion_error', 'local_date_time']]),
-    "C04": dict(groups=["rulelookup"], families=["zone", "lookup"], level="exploration", errkind_matters=False, theorems=[]),
+    "C04": dict(groups=["rulelookup"], families=["zone", "lookup"], level="proof", errkind_matters=False, theorems=["TzVerif.C04." + t for t in ["day_notations","accepted_shape","evaluated_correctly_partial","changes_only_at_instants","year_guard","refusal_is_out_of_range","counterexample"]]),
     "C05": dict(groups=["find", "leap"], families=["zone", "find"], level="exploration", errkind_matters=False, theorems=[]),
     "C06": dict(groups=["find"], families=["zone", "find"], level="exploration", errkind_matters=False, theorems=[]),
     "C07": dict(groups=["hostile"], families=["tzif", "tzfooter"], level="exploration", errkind_matters=False, theorems=[], special="c07", flavour="dev"),
